@@ -53,7 +53,10 @@ func c08VarTypes() []octosql.Type {
 	sxy := c08Struct([]string{"x", "y"}, []octosql.Type{I, S})
 	syz := c08Struct([]string{"y", "z"}, []octosql.Type{S, c08Sum(N, F)})
 	snest := c08Struct([]string{"o", "n"}, []octosql.Type{sxy, c08Sum(N, I)})
+	syx := c08Struct([]string{"y", "x"}, []octosql.Type{S, I})
+	sxyz := c08Struct([]string{"z", "x", "y"}, []octosql.Type{F, c08Sum(N, I), S})
 	return []octosql.Type{
+		syx, sxyz, c08Sum(N, syx), c08List(syx), c08Tuple(I), c08Tuple(S, I, F), c08Sum(N, c08Tuple(I, I, I)), c08List(c08Tuple(I, S)),
 		I, I, c08Sum(N, I), c08Sum(N, I), F, c08Sum(N, F), S, S, c08Sum(N, S), B, c08Sum(N, B), c08Sum(N, B), N,
 		c08Sum(I, S), c08Sum(N, F, S), c08Sum(N, I, S), c08Sum(I, F), c08Sum(B, I), c08Sum(N, B, S), c08Sum(I, D), c08Sum(N, I, F, S),
 		T, c08Sum(N, T), D, c08Sum(N, D),
@@ -62,6 +65,19 @@ func c08VarTypes() []octosql.Type {
 		c08Tuple(I, S), c08Tuple(I, I, I), c08Sum(N, c08Tuple(I, S)), c08Tuple(),
 		octosql.Any, c08List(sxy), c08Sum(c08List(I), c08Tuple(I, S)),
 	}
+}
+
+// c08Composite: the variable types whose non-NULL part is (or contains) an object, a tuple or a list of those
+func c08Composite(types []octosql.Type) []octosql.Type {
+	var out []octosql.Type
+	for _, t := range types {
+		nn := octosql.NonNullable(t)
+		if nn.TypeID == octosql.TypeIDStruct || nn.TypeID == octosql.TypeIDTuple ||
+			(nn.TypeID == octosql.TypeIDList && nn.List.Element != nil && (nn.List.Element.TypeID == octosql.TypeIDStruct || nn.List.Element.TypeID == octosql.TypeIDTuple)) {
+			out = append(out, t)
+		}
+	}
+	return out
 }
 
 var c08GenInts = []int64{0, 1, -1, 2, 3, 7, -5, 12, 9223372036854775807, -9223372036854775808}
@@ -262,10 +278,18 @@ func (p *c08Pool) candidate() (string, int) {
 	case k < 80: // coalesce
 		n := 1 + g.Intn(3)
 		first := p.pick()
+		sameFamily := g.Chance(1, 3)
+		if sameFamily {
+			// objects / tuples / lists of different shapes: exercises ObjectLayoutFixer (fields by name, padding)
+			first = p.pickWhere(func(t octosql.Type) bool { return octosql.NonNullable(t).TypeID >= octosql.TypeIDList && octosql.NonNullable(t).TypeID <= octosql.TypeIDTuple })
+			n = 2 + g.Intn(2)
+		}
 		args := []c08Item{first}
 		nn := octosql.NonNullable(first.t)
 		for i := 1; i < n; i++ {
-			if g.Chance(2, 3) {
+			if sameFamily {
+				args = append(args, p.pickWhere(func(t octosql.Type) bool { return octosql.NonNullable(t).TypeID == nn.TypeID }))
+			} else if g.Chance(2, 3) {
 				args = append(args, p.pickWhere(func(t octosql.Type) bool { return octosql.NonNullable(t).Equals(nn) }))
 			} else {
 				args = append(args, p.pick())
@@ -340,7 +364,11 @@ func c08GenEnv(g *Gen, nrows int) *c08Env {
 			} else {
 				id++
 			}
-			fields = append(fields, physical.SchemaField{Name: "c" + strconv.Itoa(name), Type: Pick(g, types)})
+			t := Pick(g, types)
+			if g.Chance(1, 4) {
+				t = Pick(g, c08Composite(types))
+			}
+			fields = append(fields, physical.SchemaField{Name: "c" + strconv.Itoa(name), Type: t})
 		}
 		env.ctxs = append(env.ctxs, fields)
 	}
